@@ -169,21 +169,27 @@ class MyList(Iterable[T]):
     def head(self) -> T: ...
 class TrkList(MyList[Trk]):
     pass
+class Grouped(Iterable[Iterable[T]]):
+    "the class parameter is not the element type: the elements are sequences of it"
+    def ngroups(self) -> int: ...
 class Ev:
     def a(self) -> float: ...
     def n(self) -> int: ...
     def flag(self) -> bool: ...
     def jets(self) -> JetList: ...
     def mjets(self) -> MyList[Jet]: ...
+    def groups(self) -> Grouped[Trk]: ...
 ''', {
     "root": "Ev",
     "Ev": [("a", "float"), ("n", "int"), ("flag", "bool"), ("jets", ("ItObj", "JetList", ("Obj", "Jet"))),
-           ("mjets", ("ItObj", "MyList[Jet]", ("Obj", "Jet")))],
+           ("mjets", ("ItObj", "MyList[Jet]", ("Obj", "Jet"))),
+           ("groups", ("ItObj", "Grouped[Trk]", ("It", ("Obj", "Trk"))))],
     "Jet": [("pt", "float"), ("ntrk", "int"), ("trks", ("ItObj", "TrkList", ("Obj", "Trk"))), ("good", "bool")],
     "Trk": [("q", "int")],
     "JetList": [("leading", ("Obj", "Jet")), ("njets", "int")],
     "MyList[Jet]": [("head", ("Obj", "Jet"))],
     "TrkList": [("head", ("Obj", "Trk"))],
+    "Grouped[Trk]": [("ngroups", "int")],
 })
 
 MODELS["collection"] = (HEADER + '''
@@ -283,6 +289,18 @@ def to_py(t, g):
     raise ValueError(t)
 
 
+def _subst(t, mapping):
+    "substitute type variables at any depth of a typing object"
+    import typing
+
+    if t in mapping:
+        return mapping[t]
+    params = getattr(t, "__parameters__", ())
+    if params and any(p in mapping for p in params):
+        return t[tuple(mapping.get(p, p) for p in params)]
+    return t
+
+
 def py_elem(pt, depth=0):
     """independent unwrapping of a Python typing object: the element type if it is an iterable
     (Iterable[X] itself, or a class deriving from Iterable[X], type variables substituted)"""
@@ -308,7 +326,7 @@ def py_elem(pt, depth=0):
             if r is not None:
                 return r
             continue
-        ba = tuple(mapping.get(a, a) for a in ba)
+        ba = tuple(_subst(a, mapping) for a in ba)
         if bo is collections.abc.Iterable:
             return ba[0]
         if isinstance(bo, type) and ba:
